@@ -13,6 +13,7 @@ mod c07;
 mod c11;
 mod c20;
 mod c12;
+mod c12k;
 mod c13;
 mod c14;
 mod c15;
@@ -22,6 +23,7 @@ mod c19;
 mod c18;
 mod corpus;
 mod dsl;
+mod kcfg;
 mod rng;
 
 use std::io::{BufWriter, Write};
